@@ -70,6 +70,7 @@ def run(ctx, R):
     F = ctx.facts()
     submit_writes(F, R)
     table_writers(F, R)
+    removal_leaves_a_priority_zero_entry(F, R)
     R.rule("RF9 specifier/priority/protected-atom tables; RF3 validators before '$op'; RF10 op_declaration; RF1 priority-0 filter; RF3 direct-lookup guard")
     text = open(os.path.join(REPO, "src/lib/builtins.pl")).read()
     cl = {}
@@ -310,3 +311,19 @@ def table_writers(F, R):
             R.ob("C43:direct-table-write:%s" % c, False,
                  "%s writes an operator declaration into the table with insert_into_op_dir, bypassing OpDecl::submit's infix/postfix exclusion: a file directive "
                  ":- op(200, xf, +). makes + both infix and postfix (current_op(P, T, +) then lists yfx, fy and xf)" % c, "src/machine/load_state.rs")
+
+
+def removal_leaves_a_priority_zero_entry(F, R):
+    """op(0, Type, Name) does not delete the table entry: it stores priority 0 under the same key, and every reader of the
+    table filters priority 0 (rule above). The reader depends on the entry being there: a priority-0 prefix entry for `-` is
+    what lets `- 1` after op(0, fy, -) still be read as a negative number. OpDecl::remove therefore sets priority 0 and
+    goes through the same insertion as a definition; it deletes nothing from the table."""
+    rm = F.find_impl("OpDecl", None, "remove")
+    body = F.hir(rm)["body"]
+    deletes = [x["name"] for x in walk(body) if x["k"] == "MethodCall" and x["name"] in ("remove", "swap_remove", "shift_remove", "retain", "clear", "pop")]
+    zero = any(x["k"] == "MethodCall" and x["name"] == "set" and x["args"] and x["args"][0]["k"] == "Lit" and x["args"][0]["lit"].get("int") == "0" for x in walk(body))
+    inserts = any(x["k"] == "MethodCall" and x["name"] in ("insert_into_op_dir", "insert") for x in walk(body))
+    R.ob("C43:remove:stores-priority-0-under-the-same-key", not deletes and zero and inserts,
+         "OpDecl::remove %s: removal is a priority-0 entry stored through the ordinary insertion (the table's readers filter priority 0, and the reader needs the entry of a removed "
+         "prefix minus to read negative literals)" % ("deletes from the table (%s)" % deletes if deletes else "does not store priority 0 through the insertion"), F.where(rm))
+
